@@ -458,6 +458,7 @@ def writeEnd (fileIdx : Nat) (f : FileInfo) (buffer : Bytes) : M Unit := do
   let bytesUntilMax := Gen.MAX_FILE_SIZE - f.currentOffset
   let bytesToWrite := min buffer.length bytesUntilMax
   writeLoop fileIdx volIdx (bytesToWrite + 1) (buffer.take bytesToWrite)
+  if bytesToWrite < buffer.length then M.fail .DiskFull else pure ()
 
 /-- `write` after the handle checks and after the modification was recorded. -/
 def writeTail (fileIdx : Nat) (f : FileInfo) (buffer : Bytes) (volIdx : Nat) : M Unit :=
@@ -484,7 +485,8 @@ theorem keeps_writeEnd (fileIdx : Nat) (f : FileInfo) (buffer : Bytes) : KeepsR 
   · split
     · exact ⟨⟨rfl, rfl, rfl, rfl, rfl, rfl, rfl, id⟩, rfl, rfl⟩
     · exact SameStamp.refl f
-  · exact keeps_bind hR (keeps_getFile hR _) fun f' => keeps_writeLoop _ _ _ _
+  · exact keeps_bind hR (keeps_getFile hR _) fun f' =>
+      keeps_bind hR (keeps_writeLoop _ _ _ _) fun _ => keeps_ite _ (keeps_fail hR _) (keeps_pure hR _)
 
 theorem keeps_writeTail (fileIdx : Nat) (f : FileInfo) (buffer : Bytes) (volIdx : Nat) :
     KeepsR SameStamp (writeTail fileIdx f buffer volIdx) := by
